@@ -11,14 +11,20 @@ const NAMES: &[&str] = &[
     "name", "count", "Color", "Level", "item_1", "$schema", "a\"b", "n\nl", "my type!", "", "a b", "é", "中文", "a.b", "a-b", "1x",
     "back\\slash", "tab\there", "cr\rx", "end\\", "q'", "x]", "[string]", "---@field", "nil", "end", "a#b", "a|b", "a?", "a<b>",
     "\u{0}", "😀", "_ok", "A9", "crlf\r\nx",
+    // every word the doc grammar treats specially, and tag words
+    "public", "private", "protected", "package", "readonly", "internal", "async", "fun", "table", "self", "true", "false", "keyof",
+    "extends", "as", "in", "and", "or", "else", "any", "string", "class", "field", "param", "return", "type", "alias", "@class",
+    "@field x", "@param", "@return", "@type", "@alias", "it's \"quoted\"", "'", "\"'",
 ];
 const STRINGS: &[&str] = &[
     "red", "green", "", "a\"b", "n\nl", "back\\slash", "end\\", "sp ace", "é", "#hash", "q'", "cr\rx", "tab\t", "|", "\"", "\\\"", "]]",
-    "--", "\u{0}", "😀", "crlf\r\nx",
+    "--", "\u{0}", "😀", "crlf\r\nx", "it's \"quoted\"", "@class", "private", "fun", "nil", "true", "'\"", "@field x",
 ];
 const DESCS: &[&str] = &[
     "The name", "multi\nline", "cr\rlf", "trailing\n", "", " ", "# hash", "---@class Evil", "é 中", "a\r\nb", "\n\nx", "quote \" here",
-    "]] end", "\u{0}",
+    "]] end", "\u{0}", "@class", "@class Evil", "@field", "@field x string", "@param", "@return", "@type", "@alias A", "  @class indented",
+    "\t@field", "text\n@class after newline", "a\n  @return x", "@", "@@", "@diagnostic disable", "private", "fun", "a\r@field", "\n@type",
+    "public x", "---@field", "|", "| x", "#region", "@\n@",
 ];
 const PRIMS: &[&str] = &["string", "integer", "number", "boolean", "null", "object", "array", "weird", ""];
 
@@ -141,7 +147,7 @@ pub fn gen_schema(rng: &mut Rng) -> Value {
     if let Value::Object(m) = &mut root {
         match rng.below(6) {
             0 => {}
-            1 => {
+            1 | 2 => {
                 m.insert("title".into(), json!(gen_name(rng)));
             }
             _ => {
@@ -159,18 +165,61 @@ pub fn gen_schema(rng: &mut Rng) -> Value {
     root
 }
 
+/// a root that becomes an alias without variants (or nearly) together with `$defs` entries of the
+/// fallback kinds, and names / values with both kinds of quotes
+pub fn gen_combo(rng: &mut Rng) -> Value {
+    let mut root = match rng.below(7) {
+        0 => json!({"enum": [0, 1, 2, 3]}),
+        1 => json!({"anyOf": [{"type": "null"}]}),
+        2 => json!({"oneOf": [{"const": 1}, {"const": true}]}),
+        3 => json!({"oneOf": []}),
+        4 => json!({"anyOf": []}),
+        5 => json!({"enum": []}),
+        _ => json!({"type": "object", "properties": {"it's \"quoted\"": {"enum": ["it's \"quoted\"", "a"]}, "q": {"const": "it's \"quoted\""}}}),
+    };
+    let m = root.as_object_mut().unwrap();
+    if rng.chance(2, 3) {
+        m.insert("title".into(), json!(gen_name(rng)));
+    }
+    let mut defs = Map::new();
+    for _ in 0..rng.range(1, 3) {
+        let d = match rng.below(8) {
+            0 => json!({"type": "string"}),
+            1 => json!({"type": "array", "items": {"type": "integer"}}),
+            2 => json!({"$ref": "#/$defs/Other"}),
+            3 => json!({"type": ["string", "integer"]}),
+            4 => json!({"enum": [1, 2]}),
+            5 => json!({"const": "it's \"quoted\""}),
+            6 => json!({"oneOf": []}),
+            _ => json!({"type": "object", "properties": {"private": {"type": "string"}}, "description": "@class X"}),
+        };
+        defs.insert(gen_name(rng), d);
+    }
+    m.insert("$defs".into(), Value::Object(defs));
+    root
+}
+
 pub struct Checked {
     pub text: String,
     pub root: String,
     pub errors: Vec<String>,
     pub root_declared: bool,
+    /// tags in the parsed text beyond those the emitter writes itself (`---@class/@alias/@field` lines)
+    pub stray_tags: usize,
 }
 
 /// convert → parse: the property's observation point
 pub fn convert_and_parse(schema: &Value, private: bool) -> Result<Checked, String> {
+    convert_and_parse_with(schema, private, "schema.")
+}
+
+pub fn convert_and_parse_with(schema: &Value, private: bool, prefix: &str) -> Result<Checked, String> {
     let schema = schema.clone();
+    let prefix = prefix.to_string();
     vh_common::catch(move || {
-        let r = SchemaConverter::new(private).convert(&schema);
+        let mut conv = SchemaConverter::new(private);
+        conv.type_prefix = prefix;
+        let r = conv.convert(&schema);
         let tree = LuaParser::parse(&r.annotation_text, ParserConfig::default());
         let errors: Vec<String> = tree.get_errors().iter().map(|e| format!("{:?}@{:?}", e.message, e.range)).collect();
         let chunk = tree.get_chunk_node();
@@ -185,7 +234,11 @@ pub fn convert_and_parse(schema: &Value, private: bool) -> Result<Checked, Strin
                 declared = true;
             }
         }
-        Checked { text: r.annotation_text, root: r.root_type_name, errors, root_declared: declared }
+        // every tag the parser sees must come from a line the emitter wrote as a tag line
+        let tag_lines = r.annotation_text.lines().filter(|l| l.starts_with("---@")).count();
+        let parsed_tags = chunk.descendants::<emmylua_parser::LuaDocTag>().count();
+        let stray_tags = parsed_tags.saturating_sub(tag_lines);
+        Checked { text: r.annotation_text, root: r.root_type_name, errors, root_declared: declared, stray_tags }
     })
 }
 
@@ -290,13 +343,19 @@ fn gen_fragment(rng: &mut Rng) -> (Value, String, bool) {
 }
 
 fn oracle(schema: &Value, private: bool, report: &mut Report) {
-    match convert_and_parse(schema, private) {
-        Err(m) => report.oracle_failure(json!({"input": {"schema": schema, "private": private}, "what": format!("convert/parse panicked: {m}"), "class": Value::Null})),
+    oracle_with(schema, private, "schema.", report)
+}
+
+fn oracle_with(schema: &Value, private: bool, prefix: &str, report: &mut Report) {
+    match convert_and_parse_with(schema, private, prefix) {
+        Err(m) => report.oracle_failure(json!({"input": {"schema": schema, "private": private, "prefix": prefix}, "what": format!("convert/parse panicked: {m}"), "class": Value::Null})),
         Ok(c) => {
             if !c.errors.is_empty() {
-                report.oracle_failure(json!({"input": {"schema": schema, "private": private}, "what": format!("annotation text has syntax errors: {:?}", &c.errors[..c.errors.len().min(3)]), "text": c.text, "class": Value::Null}));
+                report.oracle_failure(json!({"input": {"schema": schema, "private": private, "prefix": prefix}, "what": format!("annotation text has syntax errors: {:?}", &c.errors[..c.errors.len().min(3)]), "text": c.text, "class": Value::Null}));
             } else if !c.root_declared {
-                report.oracle_failure(json!({"input": {"schema": schema, "private": private}, "what": format!("root type {:?} is not declared by the annotation text", c.root), "text": c.text, "class": Value::Null}));
+                report.oracle_failure(json!({"input": {"schema": schema, "private": private, "prefix": prefix}, "what": format!("root type {:?} is not declared by the annotation text", c.root), "text": c.text, "class": Value::Null}));
+            } else if c.stray_tags > 0 {
+                report.oracle_failure(json!({"input": {"schema": schema, "private": private, "prefix": prefix}, "what": format!("{} description line(s) were read as annotation tags (text starting with `@`)", c.stray_tags), "text": c.text, "class": Value::Null}));
             }
         }
     }
@@ -329,8 +388,9 @@ pub fn run(args: &Args, report: &mut Report) {
         let v: Value = serde_json::from_str(&std::fs::read_to_string(f).expect("replay")).expect("json");
         let schema = v["input"]["schema"].clone();
         let private = v["input"]["private"].as_bool().unwrap_or(false);
+        let prefix = v["input"]["prefix"].as_str().unwrap_or("schema.").to_string();
         count(report, &schema);
-        oracle(&schema, private, report);
+        oracle_with(&schema, private, &prefix, report);
         return;
     }
 
@@ -369,12 +429,16 @@ pub fn run(args: &Args, report: &mut Report) {
         count(report, &s);
         oracle(&s, p, report);
     }
-    for _ in 0..n_gen {
-        let s = gen_schema(&mut rng);
+    for i in 0..n_gen {
+        let s = if i % 6 == 5 { gen_combo(&mut rng) } else { gen_schema(&mut rng) };
         let private = rng.chance(1, 4);
+        let prefix = *rng.pick(&["schema.", "schema.", "schema.", "", "my.ns."]);
         count(report, &s);
-        report.count(if s.get("properties").is_some() { "general_object_root" } else { "general_other_root" });
-        oracle(&s, private, report);
+        report.count(if i % 6 == 5 { "combo(variant-less root + fallback $defs / both quotes)" } else if s.get("properties").is_some() { "general_object_root" } else { "general_other_root" });
+        if prefix.is_empty() {
+            report.count("empty_type_prefix");
+        }
+        oracle_with(&s, private, prefix, report);
     }
     report.notes.push("Tie on the modelled fragment (root object: title/description/properties of primitive, const, enum kinds, required); $ref, $defs, arrays, anyOf/oneOf/allOf and additionalProperties are covered by the convert→parse oracle only (partial, as designed).".into());
 }
